@@ -4,6 +4,7 @@ package hdf5
 
 import (
 	"fmt"
+	"sort"
 	"strings"
 	"sync"
 	"testing"
@@ -118,12 +119,31 @@ func TestVerif_C16(t *testing.T) {
 		}
 		states = append(states, st)
 	}
+	// header-fill states: /x's object header at every reachable total in [236,255] message
+	// bytes (no reference count yet): a hard link to /x then fails for lack of header space
+	fillStates := vfHeaderFillStates(dir, mkX, 236, 255)
+	var fillTotals []int
+	for t := range fillStates {
+		fillTotals = append(fillTotals, t)
+	}
+	sort.Ints(fillTotals)
+	r.Set("header_fill_totals_reached", fillTotals)
+	nFill := 0
+	for _, t := range fillTotals {
+		st := append(append([]vfOp{}, fillStates[t]...), mkG)
+		states = append(states, st)
+		nFill++
+	}
+	_ = nFill
 	followUps := []vfOp{
 		{Op: "attr", Path: "/x", Name: "z", Value: "i32b"},
 		{Op: "mkds", Path: "/new", Type: "i32", Dims: []uint64{2}},
 		{Op: "write", Path: "/x", Pat: 2},
 		{Op: "mkgroup", Path: "/g2"},
 		{Op: "mkds", Path: "/g/new", Type: "u8", Dims: []uint64{2}},
+		{Op: "mkds", Path: "/x/sub", Type: "u8", Dims: []uint64{2}}, // under a dataset name: must fail in both runs
+		{Op: "mkgroup", Path: "/r/subg"},
+		{Op: "mkgroup", Path: "/lx2"}, // a name a failed hard link may have taken
 	}
 	// the failing-call catalogue, aimed at each plausible object
 	bads := func(h []vfOp) []vfOp {
@@ -163,7 +183,8 @@ func TestVerif_C16(t *testing.T) {
 			vfOp{Op: "mkgroup", Path: "/g/" + strings.Repeat("y", 120)},
 			vfOp{Op: "attr", Path: "/x", Name: "huge", Value: "s200"},
 			vfOp{Op: "attr", Path: "/x", Name: strings.Repeat("N", 250), Value: "s40"},
-			vfOp{Op: "attr", Path: "/x", Name: "one-more", Value: "s40"})
+			vfOp{Op: "attr", Path: "/x", Name: "one-more", Value: "s40"},
+			vfOp{Op: "hardlink", Path: "/lx2", Target: "/x"}, vfOp{Op: "attr", Path: "/x", Name: "t", Value: "u8"})
 		return out
 	}
 	r.Rule(fmt.Sprintf("states = every valid prefix of length <= %d over 9 valid operations plus 4 capacity-adjacent states (group with 32 entries, name heap nearly full, dense attributes, header nearly full); for each state every call of the failing-call catalogue (%d kinds, aimed at each existing object) and 4 capacity probes, followed by each of 5 valid follow-up operations; when the call returned an error the closed file must dump equal to the run without the call, the follow-up must return the same, nothing may panic, Close x3 must return nil; non-trivial = the candidate call returned an error", depth, len(vfBadCalls)))
